@@ -10,6 +10,10 @@ CLAIMED = {
              note="float64 as exact reals; hash stub (all symbolic keys collide, lookups decided by the real __eq__); bounds injected into Variable.__dict__ assuming lb<=ub; integer variables with concrete bounds; sparse Jacobians, complex step and NaN outside."),
  "C14": dict(text="PARTIAL (library-independent pipeline only): for every unit-sample matrix in [0,1]^{S x d} (symbolic, S<=2-3, d<=3) and all symbolic float bounds / listed integer bounds, the real compute_doe/_pre_run pipeline returns S samples inside the bounds, integral on integer variables, equal to the (rounded) design-space image of the unit samples in variable order, and restores the integer-normalization switch. The sampling algorithms themselves (SciPy/OpenTURNS/pyDOE, seeds, counts) are NOT covered: a change confined to them is not detected.", ref="DESIGN.md 3/C14",
              note="unit sampler replaced by a contract stub (arbitrary matrix in the unit cube); float64 as reals; bounds injected into Variable.__dict__; tie-breaking rule of the rounding left unspecified (nearest integer)."),
+ "C06": dict(text="PARTIAL (Jacobi / Gauss-Seidel / MDAChain over them, linear systems with concrete rational contraction matrices, <=2-3 sweeps): for all inputs, initial couplings and tolerances, (i) an MDA started at an exact solution returns it and reports a zero residual, for every relaxation factor, scaling and listing order tried; (ii) whenever the MDA claims convergence (stops before max_mda_iter or reports residual<=tol) the returned couplings satisfy every discipline within ||A||*tol. Convergence beyond the sweep bound, Newton-type MDAs, accelerations and non-linear systems are NOT covered: a change confined to them is not detected.", ref="DESIGN.md 3/C06",
+             note="float() of base_mda_solver stubbed to identity; tolerance written into settings.__dict__ (pydantic needs a concrete number); sqrt/norm through auxiliary variables s>=0, s^2=t; float64 as reals."),
+ "C08": dict(text="For ALL dependency graphs on n<=3 disciplines with self-loops (and all loop-free graphs on 4; thorough: all 65536 graphs on 4), duplicated names and extra shared inputs: the real execution sequence is a valid schedule (each discipline once, groups = mutually reachable sets, producers strictly earlier), strong/weak coupling sets as documented, MDAChain wraps every cyclic group in an MDA in producer-before-consumer order; for all acyclic graphs and listing orders, MDOChain/MDAChain outputs equal the term obtained by substituting producers into consumers (uninterpreted disciplines, all inputs).", ref="DESIGN.md 3/C08",
+             note="in the graph/mdachain harnesses each path is concrete once the edge flags are chosen: the solver contributes exhaustive pruned enumeration and counterexamples, not intra-path reasoning; one coupling output per discipline, sizes 1; order of members inside a group not asserted."),
 }
 NA = {
  "C07": "JacobianAssembly/CoupledSystem go through scipy.sparse, SuperLU and Krylov solvers: no symbolic value survives csr_matrix(); encoding would verify a model of scipy, not the code (DESIGN.md C07).",
